@@ -53,10 +53,10 @@ Leaf(t) == [k |-> (IF t \in Idents THEN "id" ELSE IF t \in Ints THEN "int" ELSE 
 Bin(op,l,r) == [k |-> "bin", op |-> op, l |-> l, r |-> r]
 Tuple(xs,bare) == [k |-> "tuple", xs |-> xs, bare |-> bare]
 
-RECURSIVE Test(_,_), OrTest(_,_), OrTail(_,_,_), AndTest(_,_), AndTail(_,_,_), NotTest(_,_),
-          Comparison(_,_), BitOr(_,_), BitOrTail(_,_,_), BitXor(_,_), BitXorTail(_,_,_),
-          BitAnd(_,_), BitAndTail(_,_,_), Shift(_,_), ShiftTail(_,_,_), Arith(_,_), ArithTail(_,_,_),
-          Term(_,_), TermTail(_,_,_), Unary(_,_), Primary(_,_), Suffix(_,_,_), Atom(_,_),
+RECURSIVE Test(_,_), OrTest(_,_), OrLoop(_,_,_), AndTest(_,_), AndLoop(_,_,_), NotTest(_,_),
+          Comparison(_,_), CompLoop(_,_,_,_), BitOr(_,_), BitOrLoop(_,_,_), BitXor(_,_), BitXorLoop(_,_,_),
+          BitAnd(_,_), BitAndLoop(_,_,_), Shift(_,_), ShiftLoop(_,_,_,_), Arith(_,_), ArithLoop(_,_,_,_),
+          Term(_,_), TermLoop(_,_,_,_), Unary(_,_), Primary(_,_), Suffix(_,_,_), Atom(_,_),
           TestSeq(_,_,_), Expression(_,_,_), ArgSeq(_,_,_), Arg(_,_), Subscript(_,_,_),
           ListOrComp(_,_), DictOrComp(_,_), EntrySeq(_,_,_), Clauses(_,_,_), LoopVars(_,_),
           PrimSeq(_,_,_), LambdaE(_,_), ParamSeq(_,_,_,_), Param(_,_),
@@ -86,17 +86,22 @@ Test(T,i) ==
                  IF ~e.ok THEN Fail
                  ELSE Ok([k |-> "if", c |-> c.a, t |-> a.a, e |-> e.a], e.i)
 
+(* Left-associative levels are written  Level == Sub {op Sub}  as a loop that carries the tree
+   built so far (l, Nil at the start) and the pending operator. *)
+Comb(op,l,r) == IF l.k = "none" THEN r ELSE Bin(op,l,r)
 (* ---------------------------------------------------------------- or *)
-OrTest(T,i) == LET a == AndTest(T,i) IN IF ~a.ok THEN Fail ELSE OrTail(T, a.a, a.i)
-OrTail(T,l,i) ==
-  IF Tok(T,i) # "or" THEN Ok(l,i)
-  ELSE LET r == AndTest(T,i+1) IN IF ~r.ok THEN Fail ELSE OrTail(T, Bin("or",l,r.a), r.i)
+OrTest(T,i) == OrLoop(T, Nil, i)
+OrLoop(T,l,i) ==
+  LET r == AndTest(T,i) IN
+  IF ~r.ok THEN Fail
+  ELSE IF Tok(T,r.i) = "or" THEN OrLoop(T, Comb("or",l,r.a), r.i+1) ELSE Ok(Comb("or",l,r.a), r.i)
 
 (* ---------------------------------------------------------------- and *)
-AndTest(T,i) == LET a == NotTest(T,i) IN IF ~a.ok THEN Fail ELSE AndTail(T, a.a, a.i)
-AndTail(T,l,i) ==
-  IF Tok(T,i) # "and" THEN Ok(l,i)
-  ELSE LET r == NotTest(T,i+1) IN IF ~r.ok THEN Fail ELSE AndTail(T, Bin("and",l,r.a), r.i)
+AndTest(T,i) == AndLoop(T, Nil, i)
+AndLoop(T,l,i) ==
+  LET r == NotTest(T,i) IN
+  IF ~r.ok THEN Fail
+  ELSE IF Tok(T,r.i) = "and" THEN AndLoop(T, Comb("and",l,r.a), r.i+1) ELSE Ok(Comb("and",l,r.a), r.i)
 
 (* ---------------------------------------------------------------- not *)
 NotTest(T,i) ==
@@ -109,46 +114,53 @@ CompOpAt(T,i) ==
   IF Tok(T,i) \in CompOps THEN [op |-> Tok(T,i), n |-> 1]
   ELSE IF Tok(T,i) = "not" /\ Tok(T,i+1) = "in" THEN [op |-> "not in", n |-> 2]
   ELSE [op |-> "", n |-> 0]
-Comparison(T,i) ==
-  LET l == BitOr(T,i) IN
-  IF ~l.ok THEN Fail
-  ELSE LET op == CompOpAt(T, l.i) IN
-       IF op.n = 0 THEN l
-       ELSE LET r == BitOr(T, l.i + op.n) IN
-            IF ~r.ok THEN Fail
-            ELSE IF CompOpAt(T, r.i).n > 0 THEN Fail          \* a < b < c is not a Starlark expression
-            ELSE Ok(Bin(op.op, l.a, r.a), r.i)
+\* BitOr [compop BitOr]; a further comparison operator after the second operand is an error
+\* (a < b < c is not a Starlark expression): CompLoop is entered at most twice
+Comparison(T,i) == CompLoop(T, Nil, "", i)
+CompLoop(T,l,op,i) ==
+  LET r == BitOr(T,i) IN
+  IF ~r.ok THEN Fail
+  ELSE LET nx == CompOpAt(T, r.i) IN
+       IF l.k = "none"
+       THEN (IF nx.n = 0 THEN r ELSE CompLoop(T, r.a, nx.op, r.i + nx.n))
+       ELSE (IF nx.n > 0 THEN Fail ELSE Ok(Bin(op,l,r.a), r.i))
 
 (* ---------------------------------------------------------------- | *)
-BitOr(T,i) == LET a == BitXor(T,i) IN IF ~a.ok THEN Fail ELSE BitOrTail(T, a.a, a.i)
-BitOrTail(T,l,i) ==
-  IF Tok(T,i) # "|" THEN Ok(l,i)
-  ELSE LET r == BitXor(T,i+1) IN IF ~r.ok THEN Fail ELSE BitOrTail(T, Bin("|",l,r.a), r.i)
+BitOr(T,i) == BitOrLoop(T, Nil, i)
+BitOrLoop(T,l,i) ==
+  LET r == BitXor(T,i) IN
+  IF ~r.ok THEN Fail
+  ELSE IF Tok(T,r.i) = "|" THEN BitOrLoop(T, Comb("|",l,r.a), r.i+1) ELSE Ok(Comb("|",l,r.a), r.i)
 (* ---------------------------------------------------------------- ^ *)
-BitXor(T,i) == LET a == BitAnd(T,i) IN IF ~a.ok THEN Fail ELSE BitXorTail(T, a.a, a.i)
-BitXorTail(T,l,i) ==
-  IF Tok(T,i) # "^" THEN Ok(l,i)
-  ELSE LET r == BitAnd(T,i+1) IN IF ~r.ok THEN Fail ELSE BitXorTail(T, Bin("^",l,r.a), r.i)
+BitXor(T,i) == BitXorLoop(T, Nil, i)
+BitXorLoop(T,l,i) ==
+  LET r == BitAnd(T,i) IN
+  IF ~r.ok THEN Fail
+  ELSE IF Tok(T,r.i) = "^" THEN BitXorLoop(T, Comb("^",l,r.a), r.i+1) ELSE Ok(Comb("^",l,r.a), r.i)
 (* ---------------------------------------------------------------- & *)
-BitAnd(T,i) == LET a == Shift(T,i) IN IF ~a.ok THEN Fail ELSE BitAndTail(T, a.a, a.i)
-BitAndTail(T,l,i) ==
-  IF Tok(T,i) # "&" THEN Ok(l,i)
-  ELSE LET r == Shift(T,i+1) IN IF ~r.ok THEN Fail ELSE BitAndTail(T, Bin("&",l,r.a), r.i)
+BitAnd(T,i) == BitAndLoop(T, Nil, i)
+BitAndLoop(T,l,i) ==
+  LET r == Shift(T,i) IN
+  IF ~r.ok THEN Fail
+  ELSE IF Tok(T,r.i) = "&" THEN BitAndLoop(T, Comb("&",l,r.a), r.i+1) ELSE Ok(Comb("&",l,r.a), r.i)
 (* ---------------------------------------------------------------- << >> *)
-Shift(T,i) == LET a == Arith(T,i) IN IF ~a.ok THEN Fail ELSE ShiftTail(T, a.a, a.i)
-ShiftTail(T,l,i) ==
-  IF Tok(T,i) \notin {"<<",">>"} THEN Ok(l,i)
-  ELSE LET r == Arith(T,i+1) IN IF ~r.ok THEN Fail ELSE ShiftTail(T, Bin(T[i],l,r.a), r.i)
+Shift(T,i) == ShiftLoop(T, Nil, "", i)
+ShiftLoop(T,l,op,i) ==
+  LET r == Arith(T,i) IN
+  IF ~r.ok THEN Fail
+  ELSE IF Tok(T,r.i) \in {"<<",">>"} THEN ShiftLoop(T, Comb(op,l,r.a), T[r.i], r.i+1) ELSE Ok(Comb(op,l,r.a), r.i)
 (* ---------------------------------------------------------------- + - *)
-Arith(T,i) == LET a == Term(T,i) IN IF ~a.ok THEN Fail ELSE ArithTail(T, a.a, a.i)
-ArithTail(T,l,i) ==
-  IF Tok(T,i) \notin {"+","-"} THEN Ok(l,i)
-  ELSE LET r == Term(T,i+1) IN IF ~r.ok THEN Fail ELSE ArithTail(T, Bin(T[i],l,r.a), r.i)
+Arith(T,i) == ArithLoop(T, Nil, "", i)
+ArithLoop(T,l,op,i) ==
+  LET r == Term(T,i) IN
+  IF ~r.ok THEN Fail
+  ELSE IF Tok(T,r.i) \in {"+","-"} THEN ArithLoop(T, Comb(op,l,r.a), T[r.i], r.i+1) ELSE Ok(Comb(op,l,r.a), r.i)
 (* ---------------------------------------------------------------- * / // % *)
-Term(T,i) == LET a == Unary(T,i) IN IF ~a.ok THEN Fail ELSE TermTail(T, a.a, a.i)
-TermTail(T,l,i) ==
-  IF Tok(T,i) \notin {"*","/","//","%"} THEN Ok(l,i)
-  ELSE LET r == Unary(T,i+1) IN IF ~r.ok THEN Fail ELSE TermTail(T, Bin(T[i],l,r.a), r.i)
+Term(T,i) == TermLoop(T, Nil, "", i)
+TermLoop(T,l,op,i) ==
+  LET r == Unary(T,i) IN
+  IF ~r.ok THEN Fail
+  ELSE IF Tok(T,r.i) \in {"*","/","//","%"} THEN TermLoop(T, Comb(op,l,r.a), T[r.i], r.i+1) ELSE Ok(Comb(op,l,r.a), r.i)
 (* ---------------------------------------------------------------- unary + - ~ *)
 Unary(T,i) ==
   IF Tok(T,i) \in {"+","-","~"}
